@@ -1,63 +1,34 @@
 package main
 
 import (
-	"context"
 	"fmt"
+	"runtime"
 
 	"github.com/bufbuild/bufverif/checks/c03"
-	"github.com/bufbuild/bufverif/internal/bufx"
 )
 
-func run(title string, old, nw map[string]string, cfgs ...c03.Config) {
-	eng := c03.NewEngine()
-	ctx := context.Background()
-	oi, err := bufx.BuildImage(ctx, old)
-	if err != nil {
-		panic(err)
-	}
-	ni, err := bufx.BuildImage(ctx, nw)
-	if err != nil {
-		panic(err)
-	}
-	fmt.Println("##", title)
-	for _, c := range cfgs {
-		anns, err := eng.Breaking(c, ni, oi)
-		fmt.Printf("  %-12s err=%v\n", c, err)
-		for _, a := range anns {
-			fmt.Printf("      %s:%d:%d %s %s\n", a.Path, a.StartLine, a.StartCol, a.Type, a.Message)
-		}
-	}
-}
-
 func main() {
-	pk := c03.Config{Version: "v2", Use: "PACKAGE"}
-	fl := c03.Config{Version: "v2", Use: "FILE"}
-	wr := c03.Config{Version: "v2", Use: "WIRE"}
-	run("F-A1 last message of a surviving package",
-		map[string]string{"d.proto": "syntax = \"proto3\";\npackage tiny.v1;\nenum OnlyEnum { ONLY_ENUM_UNSPECIFIED = 0; }\nmessage Only { int32 id = 1; }\n"},
-		map[string]string{"d.proto": "syntax = \"proto3\";\npackage tiny.v1;\nenum OnlyEnum { ONLY_ENUM_UNSPECIFIED = 0; }\n"}, fl, pk)
-	run("F-A2 last enum of a surviving package",
-		map[string]string{"d.proto": "syntax = \"proto3\";\npackage tiny.v1;\nenum OnlyEnum { ONLY_ENUM_UNSPECIFIED = 0; }\nmessage Only { int32 id = 1; }\n"},
-		map[string]string{"d.proto": "syntax = \"proto3\";\npackage tiny.v1;\nmessage Only { int32 id = 1; }\n"}, fl, pk)
-	run("F-A3 control: one of two messages deleted",
-		map[string]string{"d.proto": "syntax = \"proto3\";\npackage tiny.v1;\nmessage Keep { int32 id = 1; }\nmessage Only { int32 id = 1; }\n"},
-		map[string]string{"d.proto": "syntax = \"proto3\";\npackage tiny.v1;\nmessage Keep { int32 id = 1; }\n"}, fl, pk)
-	run("F-A4 last extension of a surviving package",
-		map[string]string{"d.proto": "syntax = \"proto2\";\npackage tiny.v1;\nmessage E { extensions 100 to 199; }\nextend E { optional int32 x = 100; }\n"},
-		map[string]string{"d.proto": "syntax = \"proto2\";\npackage tiny.v1;\nmessage E { extensions 100 to 199; }\n"}, fl, pk)
-	run("F-B1 editions: new LEGACY_REQUIRED field",
-		map[string]string{"a.proto": "edition = \"2023\";\npackage p.v1;\nmessage M { int32 a = 1; }\n"},
-		map[string]string{"a.proto": "edition = \"2023\";\npackage p.v1;\nmessage M { int32 a = 1; int32 b = 2 [features.field_presence = LEGACY_REQUIRED]; }\n"}, fl, wr)
-	run("F-B2 control proto2: new required field",
-		map[string]string{"a.proto": "syntax = \"proto2\";\npackage p.v1;\nmessage M { optional int32 a = 1; }\n"},
-		map[string]string{"a.proto": "syntax = \"proto2\";\npackage p.v1;\nmessage M { optional int32 a = 1; required int32 b = 2; }\n"}, fl, wr)
-	run("F-B3 editions: LEGACY_REQUIRED field deleted with number and name reserved",
-		map[string]string{"a.proto": "edition = \"2023\";\npackage p.v1;\nmessage M { int32 a = 1; int32 b = 2 [features.field_presence = LEGACY_REQUIRED]; }\n"},
-		map[string]string{"a.proto": "edition = \"2023\";\npackage p.v1;\nmessage M { int32 a = 1; reserved 2; reserved b; }\n"}, wr)
-	run("F-B4 control proto2: required field deleted with number and name reserved",
-		map[string]string{"a.proto": "syntax = \"proto2\";\npackage p.v1;\nmessage M { optional int32 a = 1; required int32 b = 2; }\n"},
-		map[string]string{"a.proto": "syntax = \"proto2\";\npackage p.v1;\nmessage M { optional int32 a = 1; reserved 2; reserved \"b\"; }\n"}, wr)
-	run("F-C FIELD_SAME_DEFAULT message",
-		map[string]string{"a.proto": "syntax = \"proto2\";\npackage p.v1;\nmessage M { optional int32 a = 1 [default = 7]; }\n"},
-		map[string]string{"a.proto": "syntax = \"proto2\";\npackage p.v1;\nmessage M { optional int32 a = 1 [default = 8]; }\n"}, wr)
+	eng := c03.NewEngine()
+	b := c03.Bases()[1]
+	r := b.Schema.Render(c03.Style{})
+	img, _ := eng.Image(r)
+	c := c03.Config{Version: "v2", Use: "ALL", Union: true}
+	var m runtime.MemStats
+	for k := 0; k < 6; k++ {
+		for i := 0; i < 100; i++ {
+			eng.Breaking(c, img, img)
+		}
+		runtime.GC()
+		runtime.ReadMemStats(&m)
+		fmt.Println("heap after", (k+1)*100, "calls:", m.HeapAlloc/1e6, "MB")
+	}
+	for k := 0; k < 3; k++ {
+		for i := 0; i < 100; i++ {
+			img2, _ := eng.Image(r)
+			eng.Breaking(c, img2, img)
+		}
+		runtime.GC()
+		runtime.ReadMemStats(&m)
+		fmt.Println("heap after fresh-image", (k+1)*100, "calls:", m.HeapAlloc/1e6, "MB")
+	}
 }
